@@ -15,7 +15,7 @@ from harness.core import Case, ImplResult, frac
 PID = 'C01'
 LEAN_MODULES = ['ThermoVerif.Props.C01']
 RULE = ('operation histories (mix_from / Stream.sum / split_to / separate_out with energy_balance False (~70 %) and the default True '
-        '(~30 %), vle / conserve_phases mixes, the operator forms + += -= unary- k* *=, Stream.copy_flow / MultiStream.copy_flow / scale / * /) over 3-8 real '
+        '(~30 %), vle / conserve_phases mixes, the operator forms + += -= unary- k* *=, in-place scaling of streams whose flow data is shared with phase views / flow proxies / from_streams constituents, Stream.copy_flow / MultiStream.copy_flow / scale / * /) over 3-8 real '
         'streams on five real property packages built per case from 6 bundled chemicals (a permuted superset, two permuted '
         'sub-packages, and re-orderings of the superset and of the first sub-package, so that one receiver package is reached '
         'by the same chemical set in different orders; ~12% of cases use non-superset packages to reach the undefined-chemical '
@@ -45,6 +45,10 @@ ASSUMPTIONS = [
     'a property package is modelled as the list of its CAS numbers; `chemicals is other_chemicals` is equality of package ids; '
     'chemical groups / aliases shared between packages are not generated',
     'sparse rows are modelled by their dense image; stored zeros do not occur on the dyadic alphabet (C09 covers the sparse invariants)',
+    'holders of shared flow data (phase views S[j][p], flow proxies, the constituents of MultiStream.from_streams) are extra '
+    'stream indices; a holder and its owner are afterwards only read or scaled in place (scale, *=, /=), never a receiver / '
+    'outlet / destination; the model re-derives every holder from its owner after each op, the oracle decides sharing by '
+    'object identity of the sparse rows observed before the call; link_with partners are not generated',
     'phase views ms[p] are operands of separate_out (the stream taken out) and of mix_from (inlets), including views of the '
     'receiver itself; they are read-only there and modelled as the row read before the write.  Flow proxies, linked streams and '
     'views as receivers / outlets / copy operands are not generated; other aliasing is the same stream in several roles',
@@ -150,6 +154,7 @@ class Universe:
         self.pkgs = []       # list of (thermo, [chemical ids])
         self.streams = []
         self.tags = set()    # which input classes the case reached (for the coverage histogram)
+        self.frozen = set()  # streams that share flow data with another one (holders and owners): only scaled / read
 
     # ---- observation (real objects only) -------------------------------------------------
     def pkg_of(self, s):
@@ -182,7 +187,9 @@ class Universe:
         snap = []
         for s in self.streams:
             rows = self.rows(s)
-            snap.append({'multi': self.is_multi(s), 'pkg': self.pkg_of(s), 'rows': rows,
+            data = s.imol.data
+            rowobjs = list(data.rows) if hasattr(data, 'rows') else [data]
+            snap.append({'multi': self.is_multi(s), 'pkg': self.pkg_of(s), 'rows': rows, 'rowobjs': rowobjs,
                          'tot': self.totals(s),
                          'nonneg': all(v >= 0 for _, r in rows for v in r),
                          'empty': all(v == 0 for _, r in rows for v in r)})
@@ -307,6 +314,17 @@ class Universe:
             S.append(float(Fraction(t[2])) * S[int(t[1])])
         elif op == 'imul':
             s = S[int(t[1])]; s *= float(Fraction(t[2]))
+        elif op == 'obs':
+            # another holder of the same flow data: a phase view or a flow proxy
+            if '.' in t[1]:
+                j, p = t[1].split('.'); S.append(S[int(j)][p])
+            else:
+                j = t[1]; S.append(S[int(j)].flow_proxy())
+            self.frozen.update((int(j), len(S) - 1))
+        elif op == 'from':
+            ids = parse_ids(t[1])
+            S.append(tmo.MultiStream.from_streams([S[i] for i in ids]))
+            self.frozen.update(ids); self.frozen.add(len(S) - 1)
         elif op == 'empty':
             S[int(t[1])].empty()
         else:
@@ -505,7 +523,31 @@ def oracle(U, line, before, exc):
                 return (f'copy:{cfg}:source-changed', f'after `{line}` chemical {NAMES[c]} was not selected but the source went from {sb["tot"][c]} to {ns.get(c, 0)}')
         return None
 
-    if op in ('scale', 'idiv', 'mul', 'div'):
+    if op in ('scale', 'idiv'):
+        # in place: every stream that holds (some of) the same flow data must read k times what it read, row by row;
+        # every other stream is untouched.  Sharing is object identity of the sparse rows, observed before the call.
+        i = int(t[1]); k = Fraction(t[2])
+        if k == 0 and op == 'idiv': return None
+        fac = k if op == 'scale' else 1 / k
+        target = {id(r) for r in before[i]['rowobjs']}
+        sharing = [h for h, b in enumerate(before) if h != i and any(id(r) in target for r in b['rowobjs'])]
+        cfg = ('M' if before[i]['multi'] else 'S') + ('.shared-data' if sharing else '')
+        if sharing: U.tags.add('in:scale:shared-data')
+        if exc is not None: return raised(cfg)
+        for h, b in enumerate(before):
+            want = {c: Fraction(0) for c in b['pkg']}
+            for robj, (_, r) in zip(b['rowobjs'], b['rows']):
+                f = fac if id(robj) in target else 1
+                for c, v in zip(b['pkg'], r): want[c] += f * v
+            got = now(h)
+            for c in b['pkg']:
+                if got.get(c, 0) != want[c]:
+                    who = 'the stream itself' if h == i else (f'stream {h}, which holds the same flow data,' if h in sharing
+                                                            else f'stream {h} (no shared data)')
+                    return (f'{op}:{cfg}:' + ('linear' if h == i else 'holder-not-scaled' if h in sharing else 'other-stream-changed'),
+                            f'after `{line}` chemical {NAMES[c]}: {who} reads {got.get(c, 0)}, expected {want[c]}')
+        return None
+    if op in ('mul', 'div'):
         i = int(t[1]); k = Fraction(t[2])
         if k == 0 and op in ('idiv', 'div'): return None
         fac = k if op in ('scale', 'mul') else 1 / k
@@ -779,14 +821,33 @@ def EB(rng, p=0.3):
     return ' eb' if rng.random() < p else ''
 
 
+def write_targets(line):
+    """streams whose flow data the op replaces or rewrites other than by scaling it in place"""
+    t = line.split(' ')
+    op = t[0]
+    if op in ('mix', 'iadd', 'isub', 'sep', 'empty'): return [int(t[1])]
+    if op == 'split': return [int(t[2]), int(t[3])]
+    if op == 'copy': return [int(t[1])] + ([int(t[2])] if t[4] == '1' else [])
+    return []
+
+
 def gen_op(rng, U):
+    """one generated step; streams that share flow data (holders and their owners) are only read or scaled in place"""
+    for _ in range(12):
+        new = gen_op0(rng, U)
+        if not U.frozen or all(not (set(write_targets(l)) & U.frozen) for l in new if l != 'END'): return new
+    i = rng.choice(sorted(U.frozen))
+    return [f'{rng.choice(["scale", "imul", "idiv"])} {i} 2']
+
+
+def gen_op0(rng, U):
     S = U.streams
     n = len(S)
     idx = list(range(n))
     kind = rng.choices(['mix', 'sum', 'split', 'sep', 'sepmix', 'copy', 'scale', 'mul', 'div', 'idiv', 'empty',
-                        'iadd', 'add', 'isubmix', 'neg', 'rmul', 'imul', 'mixvle', 'mixcp'],
+                        'iadd', 'add', 'isubmix', 'neg', 'rmul', 'imul', 'mixvle', 'mixcp', 'obs', 'from', 'shscale'],
                        [30, 5, 22, 8, 10, 14, 3, 2, 2, 1, 1,
-                        4, 3, 3, 1, 2, 2, 1, 2])[0]
+                        4, 3, 3, 1, 2, 2, 1, 2, 4, 2, 6 if U.frozen else 0])[0]
     single = [i for i in idx if not U.is_multi(S[i])]
     if kind == 'mix':
         r = rng.choice(idx)
@@ -894,6 +955,33 @@ def gen_op(rng, U):
         if kind == 'iadd': return [f'iadd {a} {b}']
         if kind == 'add': return [f'add {a} {b}']
         return [f'iadd {a} {b}', f'isub {a} {b}'] if a != b else [f'iadd {a} {b}']
+    if kind == 'obs':
+        free = [i for i in idx if i not in U.frozen]
+        if not free: kind = 'shscale'
+        else:
+            j = rng.choice(free)
+            if U.is_multi(S[j]) and rng.random() < 0.75: return [f'obs {view_tok(rng, U, j, 0.08)}']
+            return [f'obs {j}']
+    if kind == 'from':
+        free = [i for i in idx if i not in U.frozen and not U.is_multi(S[i])]
+        rng.shuffle(free)
+        pick = []
+        for i in free:
+            if all(U.pkg_of(S[i]) is U.pkg_of(S[j]) and S[i].phase != S[j].phase for j in pick): pick.append(i)
+            if len(pick) == 3: break
+        if len(pick) >= 2: return [f'from {",".join(map(str, pick))}']
+        kind = 'shscale'
+    if kind == 'shscale':
+        # scale, in place, something whose flow data is shared (owner or holder), then look at it through a split
+        if not U.frozen: return [f'imul {rng.choice(idx)} 2']
+        i = rng.choice(sorted(U.frozen))
+        k = fr(rng.choice([Fraction(0), Fraction(1, 2), Fraction(2), Fraction(3), Fraction(3, 2), Fraction(1, 4)]))
+        out = [f'{rng.choice(["scale", "imul", "imul"])} {i} {k}' if rng.random() < 0.8 else f'idiv {i} {rng.choice([2, 4])}']
+        free = [x for x in idx if x not in U.frozen and set(U.pkg_of(S[i])) <= set(U.pkg_of(S[x]))]
+        if len(free) >= 2 and rng.random() < 0.5:
+            a, b = rng.sample(free, 2)
+            out.append(f'split {i} {a} {b} {split_arg(rng, len(U.pkg_of(S[i])))}' + EB(rng))
+        return out
     if kind == 'neg': return [f'neg {rng.choice(idx)}']
     if kind in ('rmul', 'imul'):
         return [f'{kind} {rng.choice(idx)} {fr(rng.choice([Fraction(0), Fraction(1, 2), Fraction(2), Fraction(3), Fraction(3, 2)]))}']
@@ -988,6 +1076,12 @@ def grid_cases(rng):
             for big in (False, True):
                 for variant in ('two-packages', 'entry-order', 'one-op', 'sep', 'split'):
                     cases.append(('remap', rk, ik, big, variant))
+    # ---- holders of shared flow data: views, flow proxies, from_streams; scale owner / holder in place, then look at both
+    for how in ('view', 'view-variant', 'proxyS', 'proxyM', 'from'):
+        for op in ('scale', 'imul', 'idiv'):
+            for whom in ('owner', 'holder'):
+                for then in ('split', 'mix', 'none'):
+                    cases.append(('holders', how, op, whom, then))
     # ---- phase views as operands: one phase separated out of its own multi-phase stream / of another stream / mixed
     for nph in (2, 3, 4):
         for which in ('own', 'own-variant', 'other', 'mix-own', 'mix-other', 'single'):
@@ -1085,6 +1179,30 @@ def make_grid_case(rng, spec):
             b1, c1 = inlet(B, True), inlet(C, True)
             ops += [f'mix {r1} {b1},{c1}', f'split {c1} {r1} {r2} {split_arg(rng, len(pkgs[C]))}', f'mix {r2} {c1},{b1}',
                     f'split {b1} {r2} {r1} {split_arg(rng, len(pkgs[B]))}']
+    elif kind == 'holders':
+        _, how, op, whom, then = spec
+        ph = ''.join(rng.sample(PHASES, rng.choice([2, 3])))
+        if how == 'view-variant': ph = 'l' + rng.choice('gs') if rng.random() < 0.5 else 'S' + rng.choice('gl')
+        if how in ('view', 'view-variant', 'proxyM'):
+            ops.append(gen_new(rng, pkgs, 0, 'M', ph, empty=False, dense=True)); owner = 0
+            if how == 'proxyM': ops.append('obs 0')
+            else: ops.append(f'obs 0.{swapc(ph[0]) if how == "view-variant" else rng.choice(ph)}')
+            holder = 1
+        elif how == 'proxyS':
+            ops.append(gen_new(rng, pkgs, 0, 'S', rng.choice(PHASES), empty=False)); ops.append('obs 0'); owner, holder = 0, 1
+        else:
+            for p in ph: ops.append(gen_new(rng, pkgs, 0, 'S', p, empty=False))
+            ops.append('from ' + ','.join(map(str, range(len(ph))))); owner, holder = len(ph), rng.randrange(len(ph))
+        base = nstreams(ops) + sum(1 for l in ops if l.startswith(('obs', 'from')))
+        ops.append(gen_new(rng, pkgs, 0, 'M' if rng.random() < 0.5 else 'S', None, empty=True))
+        ops.append(gen_new(rng, pkgs, 0, 'S', rng.choice('lg'), empty=True))
+        a, b = base, base + 1
+        target = owner if whom == 'owner' else holder
+        k = '4' if op == 'idiv' else fr(rng.choice([Fraction(3), Fraction(1, 2), Fraction(0), Fraction(3, 2)]))
+        ops.append(f'{op} {target} {k}')
+        if then == 'split': ops.append(f'split {owner} {a} {b} {split_arg(rng, len(pkgs[0]))}' + EB(rng, 0.4))
+        elif then == 'mix': ops.append(f'mix {b} {holder},{owner}' + EB(rng, 0.3))
+        ops.append(f'{rng.choice(["scale", "imul"])} {holder if whom == "owner" else owner} 2')
     elif kind == 'view':
         _, nph, which, rel = spec
         xph = ''.join(rng.sample(PHASES, nph))
